@@ -6,7 +6,7 @@
    used by the soundness proof (PathSoundProofs.v).  Definitions only. *)
 From Coq Require Import String.
 From Coq Require Import List ZArith NArith Bool.
-From Verif Require Import common.Sexp sem.JV sem.Syntax sem.Natives sem.Sem.
+From Verif Require Import common.Sexp sem.JV sem.Syntax sem.Natives sem.Sem sem.SemProofs.
 Import ListNotations.
 
 (* ------------------------------------------------------------------------------------------ *)
@@ -46,14 +46,29 @@ Fixpoint str_nav (v : jv) (path : list jv) : bool :=
    where every constructor is allowed. *)
 Inductive mode := MPath | MPlain.
 
-(* suffixes of a term: .a.b  .a[3]  .a[1:2]  .a[]  (constant keys) *)
-Inductive psuf := SIdx (i : index) | SIter.
+(* suffixes of a term: .a.b  .a[3]  .a[1:2]  .a[]  (constant keys) and `?` (protects the suffix before it) *)
+Inductive psuf := SIdx (i : index) | SIter | SOpt.
 Definition emb_suf (s : psuf) : suffix :=
   match s with
   | SIdx i => Suffix (Some i) false false
   | SIter => Suffix None true false
+  | SOpt => Suffix None false true
   end.
-Definition suf_ok (s : psuf) : Prop := match s with SIdx i => index_key i <> None | SIter => True end.
+Definition suf_ok (s : psuf) : Prop := match s with SIdx i => index_key i <> None | _ => True end.
+
+(* entries of an object pattern:  {$x}  and  {k: $x} *)
+Inductive pobj := OVar (x : bytes) | OKey (k x : bytes).
+Definition emb_po (e : pobj) : patternobject :=
+  match e with
+  | OVar x => PatternObject x None None None
+  | OKey k x => PatternObject k None None (Some (Pattern x [] []))
+  end.
+Definition po_var (e : pobj) : bytes := match e with OVar x => x | OKey _ x => x end.
+Definition po_ok (e : pobj) : Prop :=
+  match e with
+  | OVar x => is_var_name x = true
+  | OKey k x => k <> [] /\ is_var_name k = false /\ is_var_name x = true
+  end.
 
 Inductive pq :=
 | PId                                  (* .                                                          *)
@@ -79,7 +94,29 @@ Inductive pq :=
 | POptIdx (i : index)                  (* .a?  .[3]?  .[1:2]?                                        *)
 | POptIter                             (* .[]?                                                       *)
 (* a term with a suffix list, as the parser builds it: .a.b[0][]  .[][1:2].c  (head . or .key) *)
-| PChain (h : option index) (ss : list psuf).
+| PChain (h : option index) (ss : list psuf)
+(* constructs that keep a frame (cell / label) alive while their consumer runs *)
+| PAlt (a b : pq)                      (* a // b                                                     *)
+| PFirst (p : pq)                      (* first(p), as builtin.jq defines it                         *)
+(* recursion, through builtin.jq: def recurse: recurse(.[]?);  def recurse(f): def r: ., (f | r); r; *)
+| PRecurse1 (f : pq)                   (* recurse(f)                                                 *)
+| PRecurse0                            (* recurse                                                    *)
+| PDotDot                              (* ..                                                         *)
+| PLimit (e p : pq)                    (* limit(e; p), as builtin.jq defines it (label + foreach)    *)
+| PElif (c a rest : pq)                (* if c then a elif ... end: rest is the if-form of the remaining branches *)
+| PSliceDyn (ha hb : bool) (a b : pq)  (* .[a:b] .[a:] .[:b] with computed bounds (ha/hb: bound present) *)
+| PBindArr (e : pq) (xs : list bytes) (p : pq)    (* e as [$a, $b, ...] | p   (array destructuring into variables) *)
+| PBindObj (e : pq) (es : list pobj) (p : pq)     (* e as {$a, k: $b, ...} | p (object destructuring into variables) *)
+(* more expressions *)
+| PArray (e : pq)                      (* [e]   (expression only: a constructed value)               *)
+| PArray0                              (* []                                                         *)
+| PReduce (src : pq) (x : bytes) (init upd : pq)              (* reduce src as $x (init; upd)        *)
+| PForeach (src : pq) (x : bytes) (init upd ext : pq)         (* foreach src as $x (init; upd; ext)  *)
+(* a jq-defined builtin without parameters whose builtin.jq body is itself in the fragment:
+   values, nulls, numbers, strings, arrays, objects, booleans, scalars, iterables, not, first, ... *)
+| PBuiltin0 (name : bytes) (body : pq)
+(* a Go-implemented function with one argument (expression only): has(e), startswith(e), contains(e), ... *)
+| PNative1 (name : bytes) (a : pq).
 
 Fixpoint emb (p : pq) : query :=
   match p with
@@ -105,7 +142,34 @@ Fixpoint emb (p : pq) : query :=
   | POptIter => Query [] [] (Some (Term TIdentity [Suffix None true false; Suffix None false true])) None None None []
   | PChain h ss => Query [] [] (Some (Term (match h with None => TIdentity | Some i => TIndex i end) (map emb_suf ss)))
                          None None None []
+  | PAlt a b => q_bin (emb a) OpAlt (emb b)
+  | PFirst p => q_call (codes "first") [emb p]
+  | PRecurse1 f => q_call (codes "recurse") [emb f]
+  | PRecurse0 => q_call (codes "recurse") []
+  | PDotDot => q_term TRecurse
+  | PLimit e p => q_call (codes "limit") [emb e; emb p]
+  | PElif c a rest =>
+      match emb rest with
+      | Query [] [] (Some (Term (TIf c2 a2 elifs els) [])) None None None [] =>
+          q_term (TIf (emb c) (emb a) ((c2, a2) :: elifs) els)
+      | q => q
+      end
+  | PBindArr e xs p =>
+      Query [] [] None (Some (emb e)) (Some OpPipe) (Some (emb p)) [Pattern [] (map (fun x => Pattern x [] []) xs) []]
+  | PBindObj e es p =>
+      Query [] [] None (Some (emb e)) (Some OpPipe) (Some (emb p)) [Pattern [] [] (map emb_po es)]
+  | PArray e => q_term (TArray (Some (emb e)))
+  | PArray0 => q_term (TArray None)
+  | PReduce src x init upd => q_term (TReduce (emb src) (Pattern x [] []) (emb init) (emb upd))
+  | PForeach src x init upd ext => q_term (TForeach (emb src) (Pattern x [] []) (emb init) (emb upd) (Some (emb ext)))
+  | PBuiltin0 name _ => q_call name []
+  | PNative1 name a => q_call name [emb a]
+  | PSliceDyn ha hb a b =>
+      q_term (TIndex (Index [] None (if ha then Some (emb a) else None) (if hb then Some (emb b) else None) true))
   end.
+
+Definition if_form (p : pq) : bool :=
+  match p with PIf _ _ _ | PIfNoElse _ _ | PElif _ _ _ => true | _ => false end.
 
 Definition is_lit (t : termkind) : bool :=
   match t with
@@ -127,23 +191,42 @@ Definition native0_ok (name : bytes) : bool :=
   negb (list_N_eqb name nm_25) && negb (list_N_eqb name nm_26) && negb (list_N_eqb name nm_0) &&
   negb (list_N_eqb name nm_22) && negb (is_formatter name).
 
+(* names step_call treats as plain natives of arity 1 *)
+Definition native1_ok (name : bytes) : bool :=
+  negb (is_var_name name) && negb (list_N_eqb name nm_29) && negb (list_N_eqb name nm_24) &&
+  negb (list_N_eqb name nm_12) && negb (is_formatter name).
+
 (* side conditions.  [bs] is the table of jq-defined builtins: a native must not be shadowed by it *)
 Fixpoint ok (bs : list funcdef) (m : mode) (p : pq) {struct p} : Prop :=
   match p with
-  | PId | PIter | PEmpty | PError | POptIter => True
+  | PId | PIter | PEmpty | PError | POptIter | PRecurse0 | PDotDot => True
   | PIdx i | POptIdx i => index_key i <> None
-  | PPipe a b | PComma a b => ok bs m a /\ ok bs m b
+  | PPipe a b | PComma a b | PAlt a b => ok bs m a /\ ok bs m b
   | PIf c a b => ok bs MPlain c /\ ok bs m a /\ ok bs m b
-  | PIfNoElse c a => ok bs MPlain c /\ ok bs m a
+  | PIfNoElse c a | PLimit c a => ok bs MPlain c /\ ok bs m a
   | PSelect c => ok bs MPlain c
   | PIdxDyn e => ok bs MPlain e /\ query_index_key (emb e) = None
   | PGetpath e => ok bs MPlain e
   | PBind e x p => ok bs MPlain e /\ is_var_name x = true /\ ok bs m p
-  | PTry p => ok bs m p
+  | PTry p | PFirst p | PRecurse1 p => ok bs m p
   | PLit t => m = MPlain /\ is_lit t = true
   | PVar x => m = MPlain /\ is_var_name x = true
   | PBinop o a b => m = MPlain /\ binop_ok o = true /\ ok bs MPlain a /\ ok bs MPlain b
   | PNative0 name => m = MPlain /\ native0_ok name = true /\ lookup_builtin bs name 0 = None
+  | PElif c a rest => ok bs MPlain c /\ ok bs m a /\ ok bs m rest /\ if_form rest = true
+  | PSliceDyn ha hb a b =>
+      (if ha then ok bs MPlain a else True) /\ (if hb then ok bs MPlain b else True) /\
+      index_key (Index [] None (if ha then Some (emb a) else None) (if hb then Some (emb b) else None) true) = None
+  | PBindArr e xs p => ok bs MPlain e /\ xs <> [] /\ Forall (fun x => is_var_name x = true) xs /\ ok bs m p
+  | PBindObj e es p => ok bs MPlain e /\ es <> [] /\ Forall po_ok es /\ ok bs m p
+  | PArray e => m = MPlain /\ ok bs MPlain e
+  | PArray0 => m = MPlain
+  | PReduce src x init upd => m = MPlain /\ is_var_name x = true /\ ok bs MPlain src /\ ok bs MPlain init /\ ok bs MPlain upd
+  | PForeach src x init upd ext =>
+      m = MPlain /\ is_var_name x = true /\ ok bs MPlain src /\ ok bs MPlain init /\ ok bs MPlain upd /\ ok bs MPlain ext
+  | PBuiltin0 name b =>
+      is_var_name name = false /\ lookup_builtin bs name 0 = Some (FuncDef name [] (emb b)) /\ ok bs m b
+  | PNative1 name a => m = MPlain /\ native1_ok name = true /\ lookup_builtin bs name 1 = None /\ ok bs MPlain a
   | PChain h ss => match h with Some i => index_key i <> None | None => True end /\ Forall suf_ok ss
   end.
 
@@ -175,12 +258,22 @@ Definition bump (s : sst) : sst :=
 Definition dec_steps (s : sst) : sst :=
   mkst (outs s) (nout s) (cap s) (nextid s) (inputs s) (cells s) (repsens s) (N.pred (steps s)).
 
+(* Frames.  `//`, label (first, limit) and foreach (limit) keep a cell alive while their consumer runs; a label's
+   id is the id of its (dummy) cell.  The two runs allocate DIFFERENT ids for corresponding frames (the path run
+   also allocates navigation ids), so the relation between the runs is indexed by the stack of live frames
+   (newest first), each with its id in the path run (f1) and in the plain run (f2). *)
+Record frame := mkfr { f_lab : bool; f1 : N; f2 : N }.
+Definition world := list frame.
+
+Definition lab_in (w : world) (a b : N) : Prop :=
+  exists fr, In fr w /\ f_lab fr = true /\ f1 fr = a /\ f2 fr = b.
+
 (* environments of the fragment: variables and labels only; the two runs see the same values (the ids
-   beside them may differ) *)
-Inductive env_rel : env -> env -> Prop :=
-| ER_nil : env_rel [] []
-| ER_var n v1 v2 r1 r2 : fst v1 = fst v2 -> env_rel r1 r2 -> env_rel (BVar n v1 :: r1) (BVar n v2 :: r2)
-| ER_label n l r1 r2 : env_rel r1 r2 -> env_rel (BLabel n l :: r1) (BLabel n l :: r2).
+   beside them may differ) and corresponding labels *)
+Inductive env_rel (w : world) : env -> env -> Prop :=
+| ER_nil : env_rel w [] []
+| ER_var n v1 v2 r1 r2 : fst v1 = fst v2 -> env_rel w r1 r2 -> env_rel w (BVar n v1 :: r1) (BVar n v2 :: r2)
+| ER_label n l1 l2 r1 r2 : lab_in w l1 l2 -> env_rel w r1 r2 -> env_rel w (BLabel n l1 :: r1) (BLabel n l2 :: r2).
 
 (* the relation between the observable states of `path(p)` and `p` run on the same input [root]:
    same count, cap, remaining inputs, flags, budget; the k-th path emitted navigates [root] to the k-th value *)
@@ -190,6 +283,42 @@ Definition out_rel (root : jv) (q w : jv) : Prop :=
 Definition top_rel (root : jv) (s1 s2 : sst) : Prop :=
   nout s1 = nout s2 /\ cap s1 = cap s2 /\ inputs s1 = inputs s2 /\ repsens s1 = repsens s2 /\
   steps s1 = steps s2 /\ Forall2 (out_rel root) (outs s1) (outs s2).
+
+(* ids of live frames: strictly decreasing from the newest, all below the id counter *)
+Fixpoint desc (ids : list N) (bound : N) : Prop :=
+  match ids with
+  | [] => True
+  | i :: r => (i < bound)%N /\ desc r i
+  end.
+
+Definition cell_val_rel (a b : N * tv) : Prop := fst (snd a) = fst (snd b).
+
+(* the cells of the two runs are exactly the live frames, in order, and hold the same values *)
+Definition cells_rel (w : world) (s1 s2 : sst) : Prop :=
+  map fst (cells s1) = map f1 w /\ map fst (cells s2) = map f2 w /\
+  Forall2 cell_val_rel (cells s1) (cells s2) /\
+  desc (map f1 w) (nextid s1) /\ desc (map f2 w) (nextid s2).
+
+Definition SR (root : jv) (w : world) (s1 s2 : sst) : Prop := top_rel root s1 s2 /\ cells_rel w s1 s2.
+
+(* exceptions: the same, except that a break targets corresponding live labels *)
+Definition xrel (w : world) (x1 x2 : exn) : Prop :=
+  match x1, x2 with
+  | XBreak a, XBreak b => lab_in w a b
+  | XBreak _, _ | _, XBreak _ => False
+  | _, _ => x1 = x2
+  end.
+Definition rrel (w : world) (r1 r2 : unit + exn) : Prop :=
+  match r1, r2 with
+  | inl _, inl _ => True
+  | inr x1, inr x2 => xrel w x1 x2
+  | _, _ => False
+  end.
+
+Definition push_cell (s : sst) (i : tv) : sst :=
+  mkst (outs s) (nout s) (cap s) (nextid s + 1)%N (inputs s) ((nextid s, i) :: cells s) (repsens s) (steps s).
+Definition restore_cell (sc : bool) (n0 c : N) (t : sst) : sst :=
+  mkst (outs t) (nout t) (cap t) (if sc then n0 else nextid t) (inputs t) (cell_remove (cells t) c) (repsens t) (steps t).
 
 (* what an ending says about a run: a verdict, or none *)
 Definition verdict (e : ending) : Prop := match e with EndSkip _ => False | _ => True end.
@@ -224,6 +353,37 @@ Definition idx (z : Z) : index := Index [] None (Some (num_q z)) None false.
 Definition slc (a b : Z) : index := Index [] None (Some (num_q a)) (Some (num_q b)) true.
 Definition obj1 (k : string) (v : jv) : jv := VObj [(codes k, v)].
 
+(* recurse as builtin.jq defines it *)
+Definition rec_r_def : funcdef :=
+  FuncDef (codes "r") []
+    (q_bin q_identity OpComma
+       (q_term (TQuery (q_bin (q_call (codes "f") []) OpPipe (q_call (codes "r") []))))).
+Definition recurse1_def : funcdef :=
+  FuncDef (codes "recurse") [codes "f"]
+    (Query [] [rec_r_def] (Some (Term (TFunc (Func (codes "r") [])) [])) None None None []).
+Definition recurse0_def : funcdef :=
+  FuncDef (codes "recurse") []
+    (q_call (codes "recurse")
+       [Query [] [] (Some (Term TIdentity [Suffix None true false; Suffix None false true])) None None None []]).
+
+(* limit as builtin.jq defines it:
+   def limit($n; g): if $n > 0 then label $out | foreach g as $item ($n; . - 1; $item, if . <= 0 then break $out else empty end)
+                     elif $n == 0 then empty else error("limit doesn't support negative count") end; *)
+Definition lim_msg : bytes := codes "limit doesn't support negative count".
+Definition lim_zero : query := q_term (TNumber (codes "0") (NInt 0)).
+Definition lim_ext : query :=
+  q_bin (q_call (codes "$item") []) OpComma
+        (q_term (TIf (q_bin q_identity OpLe lim_zero) (q_term (TBreak (codes "$out"))) [] (Some (q_call (codes "empty") [])))).
+Definition lim_upd : query := q_bin q_identity OpSub (q_term (TNumber (codes "1") (NInt 1))).
+Definition lim_foreach : query :=
+  q_term (TForeach (q_call (codes "g") []) (Pattern (codes "$item") [] []) (q_call (codes "$n") []) lim_upd (Some lim_ext)).
+Definition lim_body : query :=
+  q_term (TIf (q_bin (q_call (codes "$n") []) OpGt lim_zero)
+              (q_term (TLabel (codes "$out") lim_foreach))
+              [(q_bin (q_call (codes "$n") []) OpEq lim_zero, q_call (codes "empty") [])]
+              (Some (q_call (codes "error") [q_term (TString (JString lim_msg None))]))).
+Definition limit_def : funcdef := FuncDef (codes "limit") [codes "$n"; codes "g"] lim_body.
+
 (* the law for one program: C02, first clause, for the query q (any input, cap, fuels; runs with a verdict) *)
 Definition path_law (bs : list funcdef) (q : query) : Prop :=
   forall n1 n2 capn rs ins v, jv_wf v ->
@@ -232,11 +392,27 @@ Definition path_law (bs : list funcdef) (q : query) : Prop :=
   snd (observe bs n1 capn rs ins (q_path q) v) = snd (observe bs n2 capn rs ins q v) /\
   Forall2 (out_rel v) (fst (observe bs n1 capn rs ins (q_path q) v)) (fst (observe bs n2 capn rs ins q v)).
 
+(* the same with gojq's getpath (as modelled): getpath of the k-th path is the k-th value, unless the path navigates
+   from a string (D10) *)
+Definition out_getpath (root : jv) (q w : jv) : Prop :=
+  exists path, q = VArr path /\ (fn_getpath root (VArr path) = NOk w \/ str_nav root path = true).
+Definition path_law_getpath (bs : list funcdef) (q : query) : Prop :=
+  forall n1 n2 capn rs ins v, jv_wf v ->
+  verdict (snd (observe bs n1 capn rs ins (q_path q) v)) ->
+  verdict (snd (observe bs n2 capn rs ins q v)) ->
+  snd (observe bs n1 capn rs ins (q_path q) v) = snd (observe bs n2 capn rs ins q v) /\
+  Forall2 (out_getpath v) (fst (observe bs n1 capn rs ins (q_path q) v)) (fst (observe bs n2 capn rs ins q v)).
+
 (* what the theorems need of the table of jq-defined builtins (true of builtin.jq: props/C02b.v) *)
 Definition builtins_ok (bs : list funcdef) : Prop :=
   lookup_builtin bs (codes "empty") 0 = None /\ lookup_builtin bs (codes "path") 1 = None /\
   lookup_builtin bs (codes "error") 0 = None /\ lookup_builtin bs (codes "getpath") 1 = None /\
-  lookup_builtin bs (codes "select") 1 = Some select_def.
+  lookup_builtin bs (codes "select") 1 = Some select_def /\
+  lookup_builtin bs (codes "first") 1 = Some first_def /\
+  lookup_builtin bs (codes "recurse") 1 = Some recurse1_def /\
+  lookup_builtin bs (codes "recurse") 0 = Some recurse0_def /\
+  lookup_builtin bs (codes "limit") 2 = Some limit_def /\
+  lookup_builtin bs (codes "error") 1 = None.
 
 (* builders for examples *)
 Definition pfld (s : string) : pq := PIdx (fld s).
@@ -245,3 +421,22 @@ Definition lnum (z : Z) : pq := PLit (TNumber (codes "0") (NInt z)).
 Definition lstr (s : string) : pq := PLit (TString (JString (codes s) None)).
 Definition vs (s : string) : jv := VStr (codes s).
 Definition obj2 (k1 : string) (v1 : jv) (k2 : string) (v2 : jv) : jv := VObj [(codes k1, v1); (codes k2, v2)].
+
+(* some parameterless builtins of builtin.jq, with their bodies as terms of the fragment *)
+Definition b_typesel (name ty : string) : pq :=
+  PBuiltin0 (codes name) (PSelect (PBinop OpEq (PNative0 (codes "type")) (lstr ty))).
+Definition b_numbers : pq := b_typesel "numbers" "number".
+Definition b_strings : pq := b_typesel "strings" "string".
+Definition b_arrays : pq := b_typesel "arrays" "array".
+Definition b_objects : pq := b_typesel "objects" "object".
+Definition b_booleans : pq := b_typesel "booleans" "boolean".
+Definition b_values : pq := PBuiltin0 (codes "values") (PSelect (PBinop OpNe PId (PLit TNull))).
+Definition b_nulls : pq := PBuiltin0 (codes "nulls") (PSelect (PBinop OpEq PId (PLit TNull))).
+Definition b_scalars : pq :=
+  PBuiltin0 (codes "scalars")
+    (PSelect (PPipe (PNative0 (codes "type")) (PBinop OpAnd (PBinop OpNe PId (lstr "array")) (PBinop OpNe PId (lstr "object"))))).
+Definition b_iterables : pq :=
+  PBuiltin0 (codes "iterables")
+    (PSelect (PPipe (PNative0 (codes "type")) (PBinop OpOr (PBinop OpEq PId (lstr "array")) (PBinop OpEq PId (lstr "object"))))).
+Definition b_not : pq := PBuiltin0 (codes "not") (PIf PId (PLit TFalse) (PLit TTrue)).
+Definition b_first0 : pq := PBuiltin0 (codes "first") (pidx 0).
